@@ -116,6 +116,7 @@ def run(F, R, ctx):
     slice_guard_rule(F, R)
     arg_conversion_rule(F, R)
     select_rule(F, R)
+    native_entry_arity_rule(F, R)
     # ---- c
     nat = natives(F)
     R.floor("C07.c", "native primitives", len(nat), 400)
@@ -401,3 +402,110 @@ def select_rule(F, R):
                    "called with no receiver it panics inside the native frame ('no operations have been added to Select')" %
                    fn.short(), fn.loc(b["line"]), sample=True)
     R.floor("C07.x", "Select waits in native primitives", n, 1)
+
+
+def native_entry_arity_rule(F, R):
+    R.rule("C07.q", "native code enters a closure's body only after the argument count was checked: in every VmCore function "
+                    "that pushes a frame and runs closure.body_exp() (call_with_instructions_and_reset_state), every path to "
+                    "that call passes adjust_stack_for_multi_arity (which raises the arity error). Where the check sits under "
+                    "a const-generic switch (`if M`), every call site instantiating the unchecked value is dominated — in its "
+                    "own function, or for a closure in the function that builds it — by a branch computed from "
+                    "ByteCodeLambda.arity. Otherwise a callback with the wrong number of parameters reads operand-stack "
+                    "slots that were never pushed (host panic) instead of raising an error")
+    enter_rx = r"\{impl VmCore\}::call_with_instructions_and_reset_state$"
+    adj_rx = r"\{impl VmCore\}::adjust_stack_for_multi_arity$"
+    entries = []
+    for n, fn in sorted(F.fns.items()):
+        if not re.match(r"steel::steel_vm::", n):
+            continue
+        tgt = []
+        for i, cb in fn.calls():
+            if re.search(enter_rx, cb["callee"]):
+                src = set()
+                for a in cb["args"][1:]:
+                    for t_ in lib.TOK.findall(a):
+                        src |= lib.alias_sources(fn, t_, depth=8)
+                prod = [c2["callee"] for _, c2 in fn.calls() if c2.get("dest") and re.match(r"_\d+", c2["dest"]) and
+                        re.match(r"_\d+", c2["dest"]).group(0) in src]
+                if any(re.search(r"\{impl ByteCodeLambda\}::body_exp$", c) for c in prod):
+                    tgt.append(i)
+        if tgt:
+            entries.append((fn, tgt))
+    R.floor("C07.q", "native entries into closure bodies", len(entries), 4)
+    callers = F.graph()[1]
+    for fn, tgt in entries:
+        via = fn.call_blocks(adj_rx)
+        ok, _ = fn.every_path_passes_from([0], tgt, via) if via else (False, None)
+        if ok:
+            R.inst("C07.q", "%s / arity adjusted on every path to the body" % fn.short(), True, sample=True)
+            continue
+        # a const-generic switch that decides whether the check runs?
+        csw = [i for i, b in enumerate(fn.blocks) if b["k"] == "switch" and not b["c"] and b.get("cv") == "?" and b["on"] == "bool"]
+        checked_value = None
+        for sb in csw:
+            zero = [t for v, t in fn.blocks[sb]["targets"] if v == "0"]
+            other = fn.blocks[sb]["otherwise"]
+            if zero and via:
+                r0 = fn.reachable_from([zero[0]], avoid=set(via))
+                r1 = fn.reachable_from([other], avoid=set(via))
+                skip0 = any(t in r0 for t in tgt)
+                skip1 = any(t in r1 for t in tgt)
+                if skip0 and not skip1:
+                    checked_value = "true"
+                elif skip1 and not skip0:
+                    checked_value = "false"
+        if checked_value is None:
+            R.inst("C07.q", "%s / arity adjusted on every path to the body" % fn.short(), False,
+                   "%s runs a closure's body on a path that did not pass adjust_stack_for_multi_arity: a callback with the wrong "
+                   "number of parameters is entered with the operand stack it does not match" % fn.short(), fn.loc())
+            continue
+        R.inst("C07.q", "%s / arity adjusted when instantiated with %s" % (fn.short(), checked_value), True,
+               sample={"const_switch": True}, nontrivial=False)
+        for c in sorted(callers.get(fn.name, ())):
+            cf = F.fns.get(c)
+            if cf is None:
+                continue
+            for i, cb in cf.calls():
+                if cb["callee"] != fn.name:
+                    continue
+                cargs = [t for t in cb.get("targs", []) if t.startswith("const:")]
+                key = "%s calls %s::<%s>" % (cf.short(), lib.split_path(fn.name)[-1], ",".join(x[6:] for x in cargs))
+                if cargs and all(x == "const:" + checked_value for x in cargs):
+                    R.inst("C07.q", key + " (checked instantiation)", True, sample=True)
+                    continue
+                # unchecked (or forwarded) instantiation: needs a dominating branch on ByteCodeLambda.arity
+                guarded = False
+                host, at = cf, i
+                for _ in range(3):
+                    dom = host.dominators()
+                    maps = _backward(host)
+                    for d in dom.get(at, ()):
+                        blk = host.blocks[d]
+                        if blk["k"] != "switch":
+                            continue
+                        loc = re.match(r"_\d+", blk.get("place", "").strip("()*"))
+                        if not loc:
+                            continue
+                        org = _origins(host, loc.group(0), maps)
+                        ar = set()
+                        for b_ in host.blocks:
+                            if any(e[0] == "fld" and e[1] == "ByteCodeLambda" and e[2] == "arity" for e in b_["e"]):
+                                for e in b_["e"]:
+                                    if e[0] == "mv" and re.search(r"\.arity\b", e[2]):
+                                        ar.add(e[1].split(".")[0])
+                        if any(o.split(".")[0] in ar for o in org):
+                            guarded = True
+                    if guarded or "::{closure#" not in host.name:
+                        break
+                    parent = F.fns.get(host.name.rsplit("::{closure#", 1)[0])
+                    if parent is None:
+                        break
+                    at_blocks = [bi for bi, b_ in enumerate(parent.blocks) for e in b_["e"] if e[0] == "closure_at" and e[2] == host.name]
+                    if not at_blocks:
+                        break
+                    host, at = parent, at_blocks[0]
+                R.inst("C07.q", key, guarded,
+                       "%s enters a closure's body through %s instantiated without the arity check (line %s) and no branch on "
+                       "ByteCodeLambda.arity dominates the call (or the construction of the closure making it): a callback "
+                       "with the wrong number of parameters indexes operand-stack slots that were never pushed — host panic "
+                       "instead of an arity error" % (cf.short(), lib.split_path(fn.name)[-1], cb["line"]), cf.loc(cb["line"]))
